@@ -33,7 +33,7 @@ def _int(v):
         return None
 
 
-def run_stdtable(facts, rep, floor=18):
+def run_stdtable(facts, rep, floor=0):
     R = "R-STDTABLE"
     rep.rule(R, "every literal arm of he_standard_params_<bits>_<tc|tq> does not exceed the HomomorphicEncryption.org standard's "
              "bound for that degree (oracle table kept in the checker)")
@@ -71,7 +71,7 @@ RAW = ("next_u64", "next_u32", "gen", "r#gen", "random")
 RANGED = ("sample", "gen_range", "sample_single", "sample_iter")
 
 
-def run_bias(facts, rep, floor=1):
+def run_bias(facts, rep, floor=0):
     R = "R-RNGPROV(bias)"
     rep.rule(R, "sample::uniform stores residues drawn by a range sampler or under an explicit rejection loop, never a raw "
              "random word reduced with `%`")
